@@ -30,7 +30,8 @@ def run(tier, seed):
 
 
 def more(tier, seed, w, v, lay, tp, mc):
-    return []
+    """Unreal 2 gather matrix: Unreal2.tla (9 toggle pairs x section outcomes x retries)"""
+    return unreal2_part(tier, seed, w, v, lay, tp, mc)
 
 
 LEVEL = "model_checking"
@@ -39,3 +40,13 @@ ASSUMPTIONS = ["scripted transport hook (validated against real sockets by C12)"
 
 def replay(path):
     return generic_replay(path)
+
+
+def unreal2_part(tier, seed, w, v, lay, tp, mc):
+    quick = tier != "thorough"
+    mc.append(tlc_mc("MC_Unreal2.tla", "MC_Unreal2.cfg", workers=4, name=PID.lower() + "_mcu"))
+    b = f"{w}/beh_unreal2.ndjson"
+    mc.append(behaviours("MC_Unreal2.tla", cfg_for(tier, "Gen_Unreal2.cfg"), b, PID.lower() + "_genu"))
+    r = vh(["unreal2-behaviours", "--layouts", lay, "--in", b, "--reps", 4 if quick else 40, "--seed", seed, "--only", PID], name=PID.lower() + "u")
+    v.add_report(r, "unreal2 behaviours")
+    return [r]
